@@ -40,7 +40,8 @@ TEXT = {
                       "source, proved kernel-only), to_u64 / from_u64 and their round trip, from_bytes, from_ascii, to_string, kmers_from_bytes/"
                       "ascii, hamming_dist, at_count, gc_count (popcount over lane masks) - each commutes with the corresponding operation on the "
                       "plain K-letter string, and the value-producing ones preserve or establish the 'unused bits are zero' invariant. (min_rc, "
-                      "flip and palindrome are C12.) The same operations are compared with the crate on raw storage words on every run.",
+                      "flip and palindrome are C12.) Beyond the listed operations: KmerOneHammingIter yields exactly the 3K strings at Hamming distance 1 "
+                      "(C10_hd1_strings). The same operations are compared with the crate on raw storage words on every run.",
         "design_ref": "DESIGN.md section 6, C10",
         "level_note": COMMON_NOTE + "num_traits PrimInt shifts/conversions are those of the primitive integers; count_ones = number of set bits.",
         "technique": "Lean 4 proof (bit-level refinement, generic width; kernel-decided mask tables) + generated-constant tie + differential correspondence",
@@ -300,7 +301,7 @@ TEXT = {
                       "ends; terminal k-mers and extension bytes from build_node's assembly, complemented when an old node lies reverse-"
                       "complemented), hence C09_result_wellformed (the result satisfies GInv, find_link is complete on it) and C09_idempotent: "
                       "re-compressing the result returns, every path of the second call is exactly one node of the first result, node counts and "
-                      "partitions agree. With a non-empty censor set the property's claims are C09_kmers_cover, C09_char, buildNode_payload and "
+                      "partitions agree. C09_findBadNodes: the tip finder that supplies censor lists returns exactly the dead ends meeting the caller's predicate, ascending. With a non-empty censor set the property's claims are C09_kmers_cover, C09_char, buildNode_payload and "
                       "C09_no_dangling; the additional comparison with a k-mer table rebuilt from the surviving nodes is an executable cross-check.",
         "design_ref": "DESIGN.md section 6, C09",
         "level_note": COMMON_NOTE + "Input graphs satisfy GInv (every graph the crate builds does: C03_ginv_of_compress, C09_result_wellformed); join symmetric.",
